@@ -710,9 +710,53 @@ func (f *frame) ghostVars() map[string]Val {
 	return m
 }
 
+// rangeIndexGuard: the clauses of loop N may speak about "rangeindex" only if loop N is a range loop; otherwise the
+// name would resolve to the range index of an earlier loop (a range loop rewritten as an index loop must leave the
+// function undecided, not make its invariants false).
+func (f *frame) rangeIndexGuard(h *ssa.BasicBlock, ls *LoopSpec) {
+	if ls == nil {
+		return
+	}
+	has := false
+	for h2, body := range f.loopBody {
+		if h2 != h && !body[h] {
+			continue // neither this loop nor one that encloses it
+		}
+		for _, in := range h2.Instrs {
+			if phi, ok := in.(*ssa.Phi); ok && phi.Comment == "rangeindex" {
+				has = true
+			}
+		}
+	}
+	if has {
+		return
+	}
+	uses := func(x ast.Expr) bool {
+		found := false
+		ast.Inspect(x, func(n ast.Node) bool {
+			if id, ok := n.(*ast.Ident); ok && id.Name == "rangeindex" {
+				found = true
+			}
+			return !found
+		})
+		return found
+	}
+	for _, inv := range ls.Invariants {
+		if uses(inv.Expr) {
+			panic(specErr("loop %d of %s is not a range loop but its invariant mentions rangeindex", ls.Ordinal, f.fn.Name()))
+		}
+	}
+	for _, d := range ls.Decreases {
+		if uses(d) {
+			panic(specErr("loop %d of %s is not a range loop but its measure mentions rangeindex", ls.Ordinal, f.fn.Name()))
+		}
+	}
+}
+
 func (f *frame) enterLoop(h *ssa.BasicBlock, in []edge, measures map[*ssa.BasicBlock][]*Term) *State {
 	c := f.c
 	ls := f.loopSpec(h)
+	f.rangeIndexGuard(h, ls)
 	id := f.loopID(h)
 	if c.pass1 {
 		st := c.mergeStates(in)
